@@ -132,3 +132,52 @@ func verifBody_C19_scrape_vs_last_close() {
 	)
 	verifReach("C19.scrape-vs-close.done", true)
 }
+
+// clients of two different networks (ASNs) report at the same time while a scrape runs: every
+// exported series names an ASN together with ITS organisation, and each network's traffic is
+// counted under its own labels
+func VH_C19_two_asns_concurrently() {
+	for rep := 0; rep < verifRepeat(400); rep++ {
+		if !verifBody_C19_two_asns() {
+			return
+		}
+	}
+}
+
+func verifBody_C19_two_asns() bool {
+	verifRaceDetect(true)
+	verifSched(1)
+	m, _ := NewServiceMetrics(&verifPerAddrDB{})
+	n := 1
+	if verifNative() {
+		n = 40
+	}
+	udp := func(last byte, key string) func() {
+		return func() {
+			for i := 0; i < n; i++ {
+				u := m.AddUDPNatEntry(&net.UDPAddr{IP: net.IPv4(203, 0, 113, last), Port: 40000}, key)
+				u.AddPacketFromClient("OK", 10, 5)
+				u.RemoveNatEntry()
+			}
+		}
+	}
+	verifPar(
+		udp(4, "k-even"),
+		udp(5, "k-odd"),
+		func() { m.Collect(make(chan prometheus_Metric, 256)) },
+	)
+	ok := true
+	lvs := verifAllLabelValues(m)
+	for i := 0; i+3 < len(lvs); i++ {
+		if lvs[i] == "asn" && lvs[i+2] == "asorg" {
+			pair := (lvs[i+1] == "64500" && lvs[i+3] == "Org-even") || (lvs[i+1] == "64501" && lvs[i+3] == "Org-odd") || (lvs[i+1] == "" && lvs[i+3] == "")
+			verifAssert("C19.two-asns.asn-with-its-organisation|C20.two-asns.asn-with-its-organisation", pair)
+			ok = ok && pair
+		}
+	}
+	pp := m.udpServiceMetrics.packetsFromClientPerLocation
+	counted := verifCounterValue(pp, "int", "AA", "64500", "Org-even", "OK") == int64(n) && verifCounterValue(pp, "int", "BB", "64501", "Org-odd", "OK") == int64(n)
+	verifAssert("C19.two-asns.each-counted-under-its-own-labels", counted)
+	verifReach("C19.two-asns.done", true)
+	return ok && counted
+}
